@@ -149,7 +149,7 @@ def run(ctx):
     if pair_i is None or asset_i is None:
         r4.fail("C07.R4:anchor", hb.path, hb.span, "anchor-missing: hop builder parameters (Addr, Asset)")
     else:
-        offer = cv[4][asset_i]
+        offer = common.inline_helpers(P, cv[4][asset_i])
         amt_vals = [x for x in common.walk(offer) if x[0] == "call" and isinstance(x[3], str) and re.search(r"querier::(query_balance|query_token_balance)$", generic_path(x[3]))]
         amt = set(ctx.roots(offer, (("f", "amount"),)))
         good = True
